@@ -34,6 +34,7 @@ type Scenario struct {
 	MaxSteps     int
 	Known        string // known-finding class this scenario is expected to exhibit ("" = none)
 	MayBeVacuous bool
+	SelfTest     bool
 	NoSummaries  bool // execute the real SWAR/SIMD primitives even when summaries are enabled
 
 	mu           sync.Mutex
